@@ -102,9 +102,18 @@ func Verif_H05Lin() {
 			vrt.Assert(s.Flush() == nil, "flush-no-error")
 		}
 	}
-	a := symOp([]int{opPut, opRemove}, len(keys))
-	b := symOp([]int{opPut, opGet, opRemove}, len(keys))
-	withFlush := vrt.Param("flusher", 1) != 0 && vrt.Choose("with-flush", 2) == 1
+	pick := func(mask int, all []int) []int {
+		var out []int
+		for i, k := range all {
+			if mask&(1<<i) != 0 {
+				out = append(out, k)
+			}
+		}
+		return out
+	}
+	a := symOp(pick(vrt.Param("akinds", 3), []int{opPut, opRemove}), len(keys))
+	b := symOp(pick(vrt.Param("bkinds", 7), []int{opPut, opGet, opRemove}), len(keys))
+	withFlush := vrt.Param("flusher", 1) == 2 || (vrt.Param("flusher", 1) == 1 && vrt.Choose("with-flush", 2) == 1)
 	var flushErr error
 	vrt.Quiesce()
 	vrt.SchedBegin()
